@@ -205,6 +205,19 @@ impl Expr {
             Expr::DotLookup { lhs, .. } => lhs.root_ident(),
             // `(get c).x += 1` writes through `c` just like `c.x += 1`
             Expr::UnaryUnwrap { value, .. } => value.root_ident(),
+            // `(c or d).x += 1` writes through `c` when it is present and through `d` otherwise
+            Expr::NilEval { primary, fallback } => {
+                let fallback_root = match fallback {
+                    Value::Ident(ident) => Some(ident),
+                    Value::MathExpr(expr) => expr.root_ident(),
+                    _ => None,
+                };
+
+                match primary.root_ident() {
+                    Some(root) if root.is_const() => Some(root),
+                    root => fallback_root.filter(|ident| ident.is_const()).or(root),
+                }
+            }
             _ => None,
         }
     }
